@@ -1060,6 +1060,34 @@ func (fx *fnCtx) unrollRange(s *ast.RangeStmt) ([]unrollStep, error) {
 	if !ok {
 		return nil, fmt.Errorf("range: no type")
 	}
+	if cl, isLit := s.X.(*ast.CompositeLit); isLit {
+		if sl, isSlice := types.Unalias(tv.Type).Underlying().(*types.Slice); isSlice && len(cl.Elts) <= 16 {
+			// `for i, x := range []T{a, b, …}`: unrolled over the literal's elements
+			if s.Tok != token.DEFINE && (s.Key != nil || s.Value != nil) {
+				return nil, fmt.Errorf("range with = is outside the subset")
+			}
+			var steps []unrollStep
+			for i, el := range cl.Elts {
+				if _, kv := el.(*ast.KeyValueExpr); kv {
+					return nil, fmt.Errorf("keyed slice literal in range")
+				}
+				st := unrollStep{consts: map[string]int64{}, body: s.Body.List}
+				if id, ok := s.Key.(*ast.Ident); ok && id.Name != "_" {
+					st.consts[id.Name] = int64(i)
+				}
+				if id, ok := s.Value.(*ast.Ident); ok && id.Name != "_" {
+					nid := ast.NewIdent(id.Name)
+					if fx.synth == nil {
+						fx.synth = map[*ast.Ident]types.Type{}
+					}
+					fx.synth[nid] = sl.Elem()
+					st.pre = append(st.pre, &ast.AssignStmt{Lhs: []ast.Expr{nid}, Tok: token.DEFINE, Rhs: []ast.Expr{el}})
+				}
+				steps = append(steps, st)
+			}
+			return steps, nil
+		}
+	}
 	n, ok := fx.arrayLen(tv.Type)
 	if !ok {
 		return nil, fmt.Errorf("range over %s is outside the subset", tv.Type)
